@@ -138,6 +138,8 @@ var anchorPatterns = map[string][]string{
 		`^criteria_ordering\.FetchOrderingResolver$`, `^fatigue\.\(\*Fatigue\)\.getFatigueFunction$`, `^anchoring\.\(\*Anchoring\)\.get\w+$`, `^anchoring\.(parseProps|checkAnchoringAlternatives)$`,
 		`^majority\.\(\*Majority\)\.drawResolver$`, `^reference_criterion\.\(\*ReferenceCriteriaManager\)\.(factory|ForParams)$`,
 		`^utils\.(IsProbability|IsInBounds|DecodeToStruct)$`, `^weighted_sum\.\(\*WeightedSumPreferenceFunc\)\.ParseParams$`, `^weighted_sum\.\(\*weightedSumParams\)\.Criterion$`,
+		// every method validates its parameters before the biases run (defect 31)
+		`\.\(\*\w+\)\.ParseParams$`, `^model\.\(\*Criteria\)\.ZipWithWeights$`,
 	},
 }
 
@@ -162,7 +164,20 @@ var commonAnchorRe = []*regexp.Regexp{
 	regexp.MustCompile(`^main\.(decideHandler|writeJSON|writeError)$`),
 }
 
+// shallowAnchorRe: compared themselves, their callees are not pulled in. C20: where a bias parses (= validates) its props
+// relative to its early returns decides whether an invalid request is answered with a ranking (defect 23).
+var shallowAnchorRe = map[string][]*regexp.Regexp{
+	"C20": {regexp.MustCompile(`^(criteria_omission|criteria_mixing|criteria_concealment|preference_reversal|fatigue|anchoring)\.\(\*\w+\)\.Apply$`),
+		// the two bounds that keep a small request from exhausting the memory (defects 30, 33)
+		regexp.MustCompile(`^choquet\.\(\*ChoquetIntegralBiasListener\)\.OnCriterionAdded$`), regexp.MustCompile(`^criteria_mixing\.\(\*criteriaToMix\)\.criterion$`)},
+}
+
 func commonAnchor(prop, key string) bool {
+	for _, re := range shallowAnchorRe[prop] {
+		if re.MatchString(key) {
+			return true
+		}
+	}
 	if prop == "C02" || prop == "C10" {
 		return false
 	}
